@@ -91,6 +91,22 @@ def gen_cases(rng, tier):
                     x1, y1 = x0 + d, y0
         cases.append(("grad_px", [kind, f2b(round(x0, 4)), f2b(round(y0, 4)), f2b(round(x1, 4)) if abs(x1 - x0) > 1e-3 or kind != 0 else f2b(x1), f2b(round(y1, 4)),
                                   f2b(rad), rng.randrange(3), int(rng.random() < 0.5), rng.randrange(2) + 2 * rng.choice([0, 0, 0, 1, 2, 3]), rng.randrange(3) + 3 * rng.choice([0, 0, 0, 1, 2, 3]), w, h] + rand_ts(rng) + rand_stops(rng)))
+    # linear gradients a few 1e-5 .. 1e-3 units long: valid (longer than DEGENERATE_THRESHOLD = 1/32768), either drawn as they
+    # are (a step at the start point for Pad) or magnified by the shader transform so that they span 8..24 pixels
+    for i in range(60 if q else 800):
+        w, h = 24, 20
+        d = rng.choice([4.5e-5, 6e-5, 1e-4, 2e-4, 2.4e-4, 5e-4, 1e-3])
+        a = rng.uniform(0, 6.28) if rng.random() < 0.5 else 0.0
+        if i % 2 == 0:
+            x0, y0 = rng.uniform(4, 20), rng.uniform(4, 16)
+            ts = list(IDENT)
+        else:
+            x0, y0 = rng.uniform(0, 4) * d, rng.uniform(0, 4) * d
+            sc = rng.choice([8.0, 16.0, 24.0]) / d
+            ts = [f2b(sc), 0, 0, f2b(sc), f2b(rng.uniform(2, 10)), f2b(rng.uniform(2, 10))]
+        x1, y1 = x0 + d * math.cos(a), y0 + d * math.sin(a)
+        cases.append(("grad_px", [0, f2b(x0), f2b(y0), f2b(x1), f2b(y1), f2b(1.0), rng.randrange(3), int(rng.random() < 0.5),
+                                  rng.randrange(2), rng.randrange(3), w, h] + ts + rand_stops(rng)))
     return cases
 
 
